@@ -22,6 +22,8 @@ package zkelog
 
 //@ func (*Proof).Verify
 //@   nopanic[C05]
+//@   modifies nothing
+//@   allocates
 //@   requires hash != nil && hash.h != nil && public.E != nil && public.E.L != nil && public.E.M != nil && public.ElGamalPublic != nil && public.Base != nil && public.Y != nil && (p != nil ==> shaped(p))
 
 //@ func challenge
